@@ -237,6 +237,15 @@ impl FailSafe {
         // response can complete.
         sessions.remove_pase(expire_sess_id);
 
+        // A fabric that was added under this fail-safe is gone for good now, and its
+        // local index is free to be handed out to the next fabric to be commissioned:
+        // no session established on it (the commissioner might already have gone
+        // operational and opened CASE sessions) must survive it. As with a fabric
+        // removal, `expire_sess_id` is kept - marked as expired - for the response.
+        if let Some(fab_idx) = removed_fabric {
+            sessions.remove_for_fabric(fab_idx, expire_sess_id);
+        }
+
         self.state = State::Idle;
         self.breadcrumb = 0;
 
